@@ -193,6 +193,18 @@ class LinInterp(OrderInterp):
                 return Lin(-lv.poly, dict(lv.atoms)) if r == "<" else lv
         return super().builtin(name, pos, kw, node)
 
+    def apply_other(self, fn: Any, pos: list[Any], kw: dict[str, Any], node: ast.AST) -> Any:
+        res = super().apply_other(fn, pos, kw, node)
+        if isinstance(fn, Obj) and fn.cls.startswith("ext:") and isinstance(res, Obj):
+            res.fields["__opaque__"] = fn.cls  # result of a call the interpreter knows nothing about
+        return res
+
+    def truth_of(self, v: Any, node: ast.AST | None) -> bool:
+        if isinstance(v, Obj) and "__opaque__" in v.fields:
+            raise AnalysisError(f"truth value of the result of the unmodelled call {v.fields['__opaque__'][4:]}() "
+                                f"(line {getattr(node, 'lineno', '?')})")
+        return super().truth_of(v, node)
+
     def _call_plain(self, fn: FuncInfo, pos: list[Any], kw: dict[str, Any], self_value: Any = None) -> Any:
         args = self.bind_args(fn.node, pos, kw, self_value)
         self.module_stack.append(fn.module)
